@@ -34,6 +34,7 @@ type Config struct {
 	OpenClasses   map[string]bool // known-finding classes that are open (label -> true)
 	SampleEvery   int
 	BranchSites   bool
+	Own           []string // label prefixes owned by the property being checked (empty = all)
 }
 
 type workItem struct {
@@ -74,6 +75,19 @@ type ReplayVector struct {
 	Layers  [][2]uint64       `json:"layers"`
 	Sched   []uint64          `json:"sched,omitempty"`
 	Expect  []string          `json:"expect,omitempty"` // predicted event trace
+	Own     []string          `json:"own,omitempty"`    // assertion label prefixes that stop the native run when they fail
+}
+
+func (c *Config) owns(label string) bool {
+	if len(c.Own) == 0 {
+		return true
+	}
+	for _, p := range c.Own {
+		if strings.HasPrefix(label, p) {
+			return true
+		}
+	}
+	return false
 }
 
 type classCond struct {
@@ -567,7 +581,7 @@ func (in *Interp) concretize(t *Term, kind string, bound uint64) uint64 {
 // ---- assertions ----
 
 func (in *Interp) vector() *ReplayVector {
-	rv := &ReplayVector{Harness: in.cfg.Harness, Bounds: in.cfg.Bounds}
+	rv := &ReplayVector{Harness: in.cfg.Harness, Bounds: in.cfg.Bounds, Own: in.cfg.Own}
 	for _, n := range in.nondets {
 		rv.Nondet = append(rv.Nondet, in.evalModel(n.t))
 		rv.Names = append(rv.Names, n.Name)
@@ -632,6 +646,11 @@ func (in *Interp) assertCond(label string, cond *Term) {
 		return
 	}
 	if r := in.eval3(cond); r == 1 {
+		return
+	}
+	if !in.cfg.owns(label) {
+		// an assertion of another property: its failures belong to that property's check; here it
+		// is only traced (the native replay does not stop at it either)
 		return
 	}
 	in.deferred = append(in.deferred, deferredAssert{label, cond, classes, len(in.events)})
